@@ -117,6 +117,12 @@ class SimpleDictDocument(DictDocument):
                 except UnicodeDecodeError as e:
                     raise ValidationError(v2, "%r while decoding %%r" % e)
 
+            if v2 in (u'', b'') and \
+                              self.get_cls_attrs(member.type).empty_is_none:
+                # the empty string is null for this type: there is no text
+                # to validate
+                v2 = None
+
             # validate raw data (before deserialization)
             try:
                 if (validator is self.SOFT_VALIDATION and not
